@@ -113,9 +113,9 @@ example : (run Proc.init [.newEnv ⟨default, 0, ["if"], ["upcase"]⟩,
 section tables
 open LiquidVerif.Gen.C11
 
-def pinnedPatternNoComments : String := "(?P<RAW>Ts0-?\\s*raw\\s*(?P<rsr>-?)Te0(?P<raw>.*?)Ts0-?\\s*endraw\\s*(?P<rsr_e>-?)Te0)|(?P<DOC>Ts0-?\\s*doc\\s*(?P<lsd>-?)Te0(?P<doc>.*?)Ts0-?\\s*enddoc\\s*(?P<rsd>-?)Te0)|(?P<output>Ss0-?\\s*(?P<stmt>.*?)\\s*(?P<rss>-?)Se0)|(?P<TAG>Ts0-?(?P<pre>\\s*(?P<name>#|\\w*)\\s*)(?P<expr>.*?)\\s*(?P<rst>-?)Te0)|(?P<content>.+?(?=((Ts0|Ss0)(?P<rstrip>-?))|\\Z))"
+def pinnedPatternNoComments : String := "(?P<RAW>Ts0-?\\s*raw\\s*(?P<rsr>-?)Te0(?P<raw>.*?)Ts0-?\\s*endraw\\s*(?P<rsr_e>-?)Te0)|(?P<DOC>Ts0-?\\s*doc\\s*(?P<lsd>-?)Te0(?P<doc>.*?)Ts0-?\\s*enddoc\\s*(?P<rsd>-?)Te0)|(?P<output>Ss0-?\\s*(?P<stmt>.*?)\\s*(?P<rss>-?)Se0)|(?P<TAG>Ts0-?(?P<pre>\\s*(?P<name>(?!Te0)#|(?:(?!Te0)\\w)*)\\s*)(?P<expr>.*?)\\s*(?P<rst>-?)Te0)|(?P<content>.+?(?=((Ts0|Ss0)(?P<rstrip>-?))|\\Z))"
 
-def pinnedPatternComments : String := "(?P<RAW>Ts0-?\\s*raw\\s*(?P<rsr>-?)Te0(?P<raw>.*?)Ts0-?\\s*endraw\\s*(?P<rsr_e>-?)Te0)|(?P<DOC>Ts0-?\\s*doc\\s*(?P<lsd>-?)Te0(?P<doc>.*?)Ts0-?\\s*enddoc\\s*(?P<rsd>-?)Te0)|(?P<COMMENT>Cs0(?P<comment>.*?)(?P<rsc>-?)Ce0)|(?P<output>Ss0-?\\s*(?P<stmt>.*?)\\s*(?P<rss>-?)Se0)|(?P<TAG>Ts0-?(?P<pre>\\s*(?P<name>#|\\w*)\\s*)(?P<expr>.*?)\\s*(?P<rst>-?)Te0)|(?P<content>.+?(?=((Ts0|Ss0|Cs0)(?P<rstrip>-?))|\\Z))"
+def pinnedPatternComments : String := "(?P<RAW>Ts0-?\\s*raw\\s*(?P<rsr>-?)Te0(?P<raw>.*?)Ts0-?\\s*endraw\\s*(?P<rsr_e>-?)Te0)|(?P<DOC>Ts0-?\\s*doc\\s*(?P<lsd>-?)Te0(?P<doc>.*?)Ts0-?\\s*enddoc\\s*(?P<rsd>-?)Te0)|(?P<COMMENT>Cs0(?P<comment>.*?)(?P<rsc>-?)Ce0)|(?P<output>Ss0-?\\s*(?P<stmt>.*?)\\s*(?P<rss>-?)Se0)|(?P<TAG>Ts0-?(?P<pre>\\s*(?P<name>(?!Te0)#|(?:(?!Te0)\\w)*)\\s*)(?P<expr>.*?)\\s*(?P<rst>-?)Te0)|(?P<content>.+?(?=((Ts0|Ss0|Cs0)(?P<rstrip>-?))|\\Z))"
 
 /-- `get_lexer` is memoised on exactly the free inputs of `compile_liquid_rules`, passes them on in
 order, and `Environment.tokenizer` hands it the environment's six delimiter attributes in that order:
